@@ -482,6 +482,16 @@ def convention_cases():
     d.addErrback(got.append)
     if len(got) != 1:
         return 'callRemote with an invalid member did not fail its Deferred'
+    # a reply whose body signature has the greatest length allowed (255 characters) completes its call like any other
+    p0, _c0 = make_connection()
+    o0 = []
+    p0.callRemote('/o', 'Wide', interface='org.e.I', destination='org.e').addBoth(o0.append)
+    try:
+        p0.dataReceived(message.MethodReturnMessage(max(p0._pendingCalls), signature='y' * 255, body=[7] * 255).rawMessage)
+    except Exception as e:
+        return 'a reply with a body signature of 255 characters raised %s: %s' % (type(e).__name__, e)
+    if o0 != [[7] * 255] or p0._pendingCalls:
+        return 'a reply with a body signature of 255 characters: the call completed with %r' % (str(o0)[:80],)
     # a second connection of the same process is established while calls are outstanding on the first: the calls the first connection
     # issues afterwards have serials of their own, and every reply completes the call it belongs to
     p1, clock1 = make_connection()
